@@ -121,6 +121,9 @@ def eval_term(tm, leaf: t.Callable[[tuple], t.Any]):
         except AnalysisError:
             v = eval_term(tm[2][0], leaf)
             return frozenset(v) if tm[1][1] in ("frozenset", "set") else tuple(sorted(v)) if tm[1][1] == "sorted" else tuple(v)
+    if tag == "call" and tm[1][0] == "ext" and tm[1][1] in ("any", "all", "sum") and len(tm[2]) == 1 and not tm[3]:
+        import builtins
+        return getattr(builtins, tm[1][1])(eval_term(tm[2][0], leaf))
     if tag == "call" and tm[1] == ("ext", "len") and len(tm[2]) == 1:
         return len(eval_term(tm[2][0], leaf))
     if tag == "call" and tm[1] == ("ext", "bool") and len(tm[2]) == 1:
